@@ -14,6 +14,10 @@ from __future__ import annotations
 import copy
 import math
 import struct
+import warnings
+
+warnings.filterwarnings('ignore', message='.*non-writable.*')
+warnings.filterwarnings('ignore', message='.*not writable.*')
 
 import numpy as np
 import torch
@@ -418,6 +422,56 @@ class Findings:
         if h not in self.__dict__.setdefault('_fcache', {}):
             self.real(case)
         return self._fcache[h]
+
+
+def run_box(check, cases, report, label, extra=None):
+    """run an enumerated family of cases through the real code, the direct oracle and the model (used by the
+    `extra_checks` of C08 / C10: exhaustive boxes rather than samples)"""
+    from harness import core
+    reals, reqs, spans = [], [], []
+    for case in cases:
+        r = check.real(case)
+        reals.append(r)
+        v = check.oracle(case, r)
+        if v is not None:
+            report['violations'].append(v)
+        rq = check.model_requests(case)
+        spans.append((len(reqs), len(reqs) + len(rq)))
+        reqs += rq
+    bad = 0
+    try:
+        replies = core.Driver(check.driver).ask(reqs)
+        for case, r, (a, b) in zip(cases, reals, spans):
+            m = check.model_outcome(case, replies[a:b])
+            if not check.equal(r, m):
+                bad += 1
+                if bad <= 3:
+                    report['broken'].append(f'correspondence ({label}): model and code differ on an enumerated case')
+                    report.setdefault('disagree_samples', []).append({'case': case, 'real': r, 'model': m})
+    except Exception as e:
+        report['broken'].append(f'{label}: driver unavailable ({e})')
+    info = {'cases': len(cases), 'exhaustive': True, 'disagreements': bad}
+    info.update(extra or {})
+    report['extra'][label] = info
+
+
+def fixed_frame(rng, n, stypes, rowid=False, y=True):
+    """one frame with exactly the given stypes, 2 columns each"""
+    feats = []
+    for s in stypes:
+        ft = gen_feat(rng, s, n, '')
+        while ft['C'] != 2:
+            ft = gen_feat(rng, s, n, '')
+        feats.append(ft)
+    spec = {'R': n, 'feats': feats, 'names_order': [ft['s'] for ft in feats],
+            'y': {'payload': 'float', 'vals': [r % 10 for r in range(n)]} if y else None, 'num_rows': None}
+    if rowid:
+        for ft in feats:
+            if ft['s'] == 'numerical':
+                ft['names'][0] = 'row_id'
+                for r in range(n):
+                    ft['cells'][r][0] = [2 * r]
+    return spec
 
 
 def _h(case):
